@@ -111,6 +111,10 @@ def run(ctx):
     for i in range(n):
         strict = rng.random() < 0.7
         g = gen.gen_schema_graph(rng) if strict else gen.gen_graph(rng)
+        if strict and rng.random() < 0.15:
+            # every typed IRI node carries its own address as a plain string (dcterms:identifier style): still a literal value
+            typed = list(dict.fromkeys(s_ for s_, p_, o_ in g if p_ == RDF_TYPE and s_[0] == 'I'))
+            g = g + [(s_, EX + 'identifier', L(s_[1])) for s_ in typed]
         for j in range(2 if ctx.tier == "quick" else 4):
             cfg = gen.default_cfg()
             cfg['all_compliant'] = True
